@@ -1,5 +1,6 @@
 import SakuraVerif.Lemmas.Core
 import SakuraVerif.Lemmas.ExecInv
+import SakuraVerif.Lemmas.ExecChord
 /-! # C06 — Sub, tuplets and chords obey their time-pointer laws for any contents
 
 Stated on `Spec.Core.sem` (the semantics the real compiler is compared with on every run), for
@@ -121,5 +122,25 @@ theorem C06_tuplet_advances_exactly_exec (F d : Nat) (lenS : List Nat) (vi ln : 
     (Ex2.leaf F (d + 1) (.mk .div vi ln vs [.str lenS] (some ch)) s).t.timepos = s.t.timepos + Len.calcLength s.tb s.t.length lenS ∧
     (Ex2.leaf F (d + 1) (.mk .div vi ln vs [.str lenS] (some ch)) s).t.length = s.t.length :=
   Ex2.div_advances_exactly F d lenS vi ln vs ch hch s hc hb hok
+
+/-- **the chord laws on the literal runner model** (`exec_harmony(…, false)`, tied by the `exec` stream): closing a chord — whatever notes
+    were collected, with whatever lengths and gates of their own — writes one event per collected note, all at the tick where the chord
+    was opened, each with the chord's length × gate as its duration (when the gate rate in force is not 0), leaves chord mode, and puts
+    the time pointer exactly one chord length after the chord's tick -/
+theorem C06_chord_laws_exec (s : Ex2.Song) (tk : Lx.Tok) (hf : s.harmonyFlag = true) (hc : s.cur < s.tracks.length) :
+    (Ex2.execHarmonyEnd s tk).harmonyFlag = false ∧ (Ex2.execHarmonyEnd s tk).harmonyEvents = [] ∧
+    (Ex2.execHarmonyEnd s tk).t.timepos = s.harmonyTime + Ex2.chordLen s tk ∧
+    ∃ evs, (Ex2.execHarmonyEnd s tk).t.events = s.t.events ++ evs ∧ evs.length = s.harmonyEvents.length ∧
+      ∀ e ∈ evs, e.time = s.harmonyTime ∧ (Ex2.chordQ s tk ≠ 0 → e.v2 = Int.tdiv (Ex2.chordLen s tk * Ex2.chordQ s tk) 100) :=
+  Ex2.execHarmonyEnd_laws s tk hf hc
+
+/-- the members keep what they are: kind, channel and key of a collected note are not touched when the chord is closed -/
+theorem C06_chord_member_identity_exec (s : Ex2.Song) (tk : Lx.Tok) (e : Event) :
+    (Ex2.chordFixEv s tk e).kind = e.kind ∧ (Ex2.chordFixEv s tk e).ch = e.ch ∧ (Ex2.chordFixEv s tk e).v1 = e.v1 :=
+  Ex2.chordFixEv_keeps s tk e
+
+-- non-vacuity: a song in chord mode with two collected notes
+example : ({ harmonyFlag := true, harmonyTime := 96, harmonyEvents := [⟨.noteOn, 96, 0, 60, 86, 100, []⟩, ⟨.noteOn, 96, 0, 64, 86, 100, []⟩] } : Ex2.Song).harmonyFlag = true ∧
+    ({} : Ex2.Song).cur < ({} : Ex2.Song).tracks.length := by decide
 
 end Sakura.Props.C06
